@@ -55,7 +55,7 @@ var nonASCII = []string{"é", "名", "ß", "ſ", "K", "٣", "²", "€", " ", "
 var literals = []string{"'x'", "''", "'it''s'", "\"d\"", "'a,b'", "'(' ", "')'", "'$T.a'", "'&T.*'", "'--'", "'/* */'", "\"'\"", "'\"'", "'\n'", "''''", "'(*) VALUES ($T.*)'"}
 var comments = []string{"-- c\n", "--\n", "-- $T.a\n", "-- 'q\n", "/* c */", "/**/", "/* $T.a */", "/* ' */", "/* -- */", "-- /* \n", "/* \n */", "--x", "/* unterminated", "-- &T.* AS\n", "/*/", "/* * / */"}
 var numbers = []string{"1", "42", "3.14", "-1", "0x1F", "1e5", "NULL", "TRUE"}
-var funcs = []string{"count('x)", "upper('anon)", "f(\"a)", "g(1, 'it''s'')", "count(*)", "max(a)", "f(a, b)", "coalesce(a, 'x')", "f(g(1), ')')", "f('--', \"(\")", "now()", "f(/* ) */ 1)", "f(-- )\n 2)", "substr(name, 1, 2)", "f($T.a)", "f((1),(2))"}
+var funcs = []string{"count('x)", "upper('anon)", "f(\"a)", "g(1, 'it''s'')", "count(*)", "max(a)", "f(a, b)", "coalesce(a, 'x')", "f(g(1), ')')", "f('--', \"(\")", "now()", "f(/* ) */ 1)", "f(-- )\n 2)", "substr(name, 1, 2)", "f($T.a)", "f((1),(2))", "strftime('%Y', a)", "printf('%05d%%', id)", "f(a % 2, b %s c)", "like(name, 'a%v')"}
 
 func (g *G) blank() string {
 	if g.R.Chance(1, 14) {
@@ -380,7 +380,7 @@ func (g *G) expr() string {
 	}
 }
 
-var bodyAlphabet = []string{"*", "*", "/", "-", "'", "\"", " ", "x", "\n", "$T.a", "&T.*", "(", ")", ",", "**", "*/x", "--"}
+var bodyAlphabet = []string{"*", "*", "/", "-", "%d", "%", "'", "\"", " ", "x", "\n", "$T.a", "&T.*", "(", ")", ",", "**", "*/x", "--"}
 
 func (g *G) body(n int, forbid string) string {
 	var sb strings.Builder
